@@ -49,7 +49,7 @@ THEOREMS = ["JanetModel.Props.C16." + t for t in (
     # session 4: operations composed with the slot registry (one stream, many fibers), system-level liveness under fairness
     "shared_stream_isolation", "shared_stream_invariant", "concurrent_writer_refused", "shared_stream_write_delivers_in_order",
     "shared_stream_write_terminates_under_fairness", "shared_stream_read_in_order", "shared_stream_read_terminates_under_fairness",
-    "shared_stream_close_wakes_all")]
+    "shared_stream_close_wakes_all", "shared_stream_refines_registry")]
 NET_CURRENT = ["JanetModel.Stream.NetCurrent." + t for t in (
     "current_source_event_codes", "current_source_connect_quiet_on_gc", "current_source_connect_checks_on_readiness",
     "connect_unaffected_by_gc_current", "current_source_accept_groups", "current_source_accept_loop_level_triggered")]
